@@ -222,6 +222,32 @@ def rule_pure(ctx):
                               f"the caller's parameters: a parameterised query cannot be described (the engine refuses the unbound placeholders)")
             break
     ctx.floor("C06.c describe() parameter paths", n_d, 2)
+    # describe() leaves the cursor's row format alone, on a failing statement too (rows fetched afterwards still carry the
+    # keys `description` names)
+    n_f = 0
+    for mode in (None, "duckdb.CatalogException"):
+        curs = []
+
+        def run_f(I, mode=mode):
+            duck, conn, cur = make_session()
+            cur.attrs[R().dict_flag] = Const(True)
+            curs.append(cur)
+            return I.call(I.getattr(cur, "describe"), [Sym("COMMAND", typ="str", truthy=True)], {}, None)
+
+        for p, cur in zip(explore(prog, lambda mode=mode: FullHooks(mode, "SELECT", undefined_var=False), run_f, max_paths=64), curs):
+            if mode is not None and p.outcome != "raise":
+                continue
+            n_f += 1
+            flag = cur.attrs.get(R().dict_flag)
+            okf = isinstance(flag, Const) and flag.v is True
+            ctx.ob("C06.c", f"describe() on a DictCursor ({'failing statement' if mode else 'ok'}): the row format is unchanged afterwards", okf,
+                   prog.mod("cursor").loc(fnd), tagof(flag))
+            if not okf:
+                ctx.violation("C06.c", "cursor", "FakeSnowflakeCursor.describe", f"row format after {'a failing ' if mode else ''}describe()", prog.mod("cursor").loc(fnd),
+                              f"after describe() {'of a failing statement ' if mode else ''}on a DictCursor the dict-row flag is `{tagof(flag)}`: the cursor "
+                              f"hands out tuples from then on, rows no longer carry the column names of `description`")
+            break
+    ctx.floor("C06.c describe() row-format paths", n_f, 2)
 
 
 # ---------------------------------------------------------------------- C06.d
